@@ -320,6 +320,7 @@ pub fn gen_world(rng: &mut Rng, prop: &str) -> WorldCfg {
         roles,
         start_time: 1_000_000_000 + rng.below(3600 * 24),
         prefix_vamms,
+        roles_trade: spare_ok && matches!(prop, "C05" | "C14" | "C16" | "C20") && rng.chance(1, 3),
         spare_if: if spare_ok && matches!(prop, "C03" | "C04" | "C06" | "C07" | "C11" | "C12") && rng.chance(1, 5) {
             Some(match rng.below(3) {
                 0 => 0,
@@ -352,6 +353,16 @@ impl Gen {
     fn pick_trader(&self, r: &Runner, rng: &mut Rng) -> String {
         if rng.chance(1, 12) {
             return "liquidator".into();
+        }
+        if r.w.cfg.roles_trade && rng.chance(1, 6) {
+            // whoever holds a role right now trades like anybody else
+            let roles = current_roles(r);
+            let mut c: Vec<String> = vec![roles.engine_owner.clone(), roles.pauser.clone(), roles.if_owner.clone(), roles.fp_owner.clone(), roles.pf_owner.clone()];
+            c.extend(roles.vamm_owner.iter().cloned());
+            c.retain(|a| !a.is_empty() && !a.starts_with("contract"));
+            if !c.is_empty() {
+                return rng.pick(&c).clone();
+            }
         }
         let t = World::trader(rng.below(r.w.cfg.n_traders as u64) as usize);
         if r.w.cfg.prefix_vamms && rng.chance(1, 3) {
